@@ -123,6 +123,12 @@ func H10a() {
 		}
 	}
 	note(s)
+	h10Judge(y, yiv, s, w, fd)
+}
+
+// h10Judge runs parseChildRanges for the written parts w (text s) under parent y and checks the
+// outcome against the interval oracle.
+func h10Judge(y YangRange, yiv []h10Iv, s string, w []h10Iv, fd uint8) {
 	r, err := y.parseChildRanges(s, fd != 0, fd)
 
 	// quantifier-free reading of the written set
@@ -168,4 +174,149 @@ func H10a() {
 	x := h10Val(Number{Value: symU64(), Negative: symBool()})
 	check(h10InAny(x, w) == h10InAny(x, riv), "value set of the result == the written set (for every x)")
 	check(symOr(symNot(h10InAny(x, riv)), h10InAny(x, yiv)), "result is a subset of the parent set (for every x)")
+}
+
+
+// H10b: the same restriction text under two different parents in succession: the second
+// outcome must be what the second parent demands, whatever the first call was (a restriction
+// is judged against its own parent at every step of every chain; nothing may be remembered).
+func H10b() {
+	fd := uint8(symRange(param("fdlo"), param("fdhi")))
+	h10Nums = nil
+	y1, yiv1 := h10Parent(2, fd)
+	y2, yiv2 := h10Parent(2, fd)
+	// the two parents agree in their lowest and highest value but not necessarily in between
+	if symBool() {
+		assume(symAnd(mEq(yiv1[0].lo, yiv2[0].lo), mEq(yiv1[1].hi, yiv2[1].hi)))
+	}
+	t1, t2 := h10Tok(fd), h10Tok(fd)
+	s := t1 + ".." + t2
+	w := []h10Iv{{h10Val(h10Nums[0]), h10Val(h10Nums[1])}}
+	_, _ = yiv1, y1
+	y1.parseChildRanges(s, fd != 0, fd)
+	note(s)
+	h10Judge(y2, yiv2, s, w, fd)
+}
+
+// ---- H10syn: the real number parsers on well-formed, malformed and leniently spelled tokens.
+
+type h10Tmpl struct {
+	t       string // D: a symbolic digit 1..9, Z: a symbolic digit 0..9, other characters literal
+	intOK   bool   // well-formed as an integer bound (RFC 7950 integer-value)
+	decOK   bool   // well-formed as a decimal64 bound (integer-value or decimal-value)
+	lenient bool   // not RFC syntax, but a spelling the library documents as accepted (sign +, base prefixes, leading zero, underscores)
+}
+
+var h10Tmpls = []h10Tmpl{
+	{"D", true, true, false}, {"DZ", true, true, false}, {"-D", true, true, false}, {"0", true, true, false}, {"-DZ", true, true, false},
+	{"D.Z", false, true, false}, {"-D.ZZ", false, true, false}, {"0.Z", false, true, false}, {"DZ.Z", false, true, false},
+	{"", false, false, false}, {"-", false, false, false}, {"D.", false, false, false}, {".Z", false, false, false}, {"D.Z.Z", false, false, false},
+	{"D-", false, false, false}, {"--D", false, false, false}, {"D Z", false, false, false}, {"Dx", false, false, false}, {"D,Z", false, false, false}, {"D.Z.", false, false, false},
+	{"+D", false, false, true}, {"0D", false, false, true}, {"0xD", false, false, true}, {"D_Z", false, false, true}, {"+D.Z", false, false, true},
+}
+
+// h10Inst instantiates a template: the text, and the denoted mantissa at fd fraction digits.
+func h10Inst(t h10Tmpl, fd int) (string, mInt) {
+	var b []byte
+	mant := mU(0)
+	neg := false
+	frac := -1
+	for i := 0; i < len(t.t); i++ {
+		c := t.t[i]
+		switch c {
+		case 'D', 'Z':
+			d := symByte()
+			if c == 'D' {
+				assume(d >= '1')
+			} else {
+				assume(d >= '0')
+			}
+			assume(d <= '9')
+			b = append(b, d)
+			mant = mAdd(mMulPow10(mant, 1), mU(uint64(d-'0')))
+			if frac >= 0 {
+				frac++
+			}
+		case '0':
+			b = append(b, c)
+			mant = mMulPow10(mant, 1)
+			if frac >= 0 {
+				frac++
+			}
+		case '-':
+			neg = true
+			b = append(b, c)
+		case '.':
+			frac = 0
+			b = append(b, c)
+		default:
+			b = append(b, c)
+		}
+	}
+	if frac < 0 {
+		frac = 0
+	}
+	if fd >= frac {
+		mant = mMulPow10(mant, fd-frac)
+	}
+	if neg {
+		mant = mNeg(mant)
+	}
+	return string(b), mant
+}
+
+func H10syn() {
+	decimal := param("decimal") == 1
+	fd := 0
+	var y YangRange
+	lo, hi := mI(-100), mI(100)
+	if decimal {
+		fd = 2
+		y = YangRange{{Number{Value: 10000, Negative: true, FractionDigits: 2}, Number{Value: 10000, FractionDigits: 2}}}
+		lo, hi = mI(-10000), mI(10000)
+	} else {
+		y = YangRange{{Number{Value: 100, Negative: true}, Number{Value: 100}}}
+	}
+	t1 := h10Tmpls[symChoice(len(h10Tmpls))]
+	s1, v1 := h10Inst(t1, fd)
+	pair := symBool()
+	s, v2, t2 := s1, v1, t1
+	if pair {
+		t2 = h10Tmpls[symChoice(len(h10Tmpls))]
+		var s2 string
+		s2, v2 = h10Inst(t2, fd)
+		s = s1 + ".." + s2
+	}
+	note(s)
+	ok := func(t h10Tmpl) bool {
+		if decimal {
+			return t.decOK
+		}
+		return t.intOK
+	}
+	wellFormed := ok(t1) && ok(t2)
+	lenient := (t1.lenient || ok(t1)) && (t2.lenient || ok(t2)) && !wellFormed
+	// fraction digits beyond the precision make a decimal bound not fit
+	r, err := y.parseChildRanges(s, decimal, uint8(fd))
+	if !wellFormed {
+		reach("malformed")
+		// a syntactically invalid restriction is rejected; the leniently spelled ones are a known finding
+		checkKF(err != nil, "a restriction that is syntactically invalid is rejected with an error", lenient, "lenient-number-spelling")
+		return
+	}
+	inOrder := mLe(v1, v2)
+	inside := symAnd(mLe(lo, v1), mLe(v2, hi))
+	if err != nil {
+		reach("rejected")
+		check(symNot(symAnd(inOrder, inside)), "a well-formed restriction with ordered bounds inside the parent set is accepted")
+		return
+	}
+	reach("accepted")
+	check(inOrder, "a part whose bounds are out of order is rejected")
+	check(inside, "a restriction that admits a value its parent does not is rejected")
+	check(len(r) == 1, "one part")
+	if len(r) == 1 {
+		check(mEq(h10Val(r[0].Min), v1), "the lower bound is the number written")
+		check(mEq(h10Val(r[0].Max), v2), "the upper bound is the number written")
+	}
 }
